@@ -643,6 +643,41 @@ def check_driver(ctx, pstate, table):
 
 
 # ---------------------------------------------------------------- TOKENIZER
+def paren_sides(en, paths):
+    """{paren kind: {'lstrip' | 'rstrip'}} read off the tokenizer's paths:
+    a non-alphabetic kind yielded len(x) - len(x.<side>(kind)) times."""
+    out = {}
+    for p in paths:
+        for y in [e for e in p.events if e.kind == 'yield']:
+            t = y.node
+            if not (isinstance(t, ast.Tuple) and len(t.elts) == 2):
+                continue
+            k = T._deref(en, t.elts[0])
+            if not (is_const(k) and isinstance(k.value, str)
+                    and not k.value.isalpha()):
+                continue
+            loopc = [c for c in p.conds[:y.nconds] if c.kind == 'loop'
+                     and c.pol]
+            if len(loopc) < 2:
+                continue
+            it = en.expand(loopc[-1].expr)
+            if isinstance(it, ast.Call) and U(it.func) == 'range' and len(
+                    it.args) == 1:
+                a = it.args[0]
+                if isinstance(a, ast.BinOp) and isinstance(a.op, ast.Sub) \
+                        and all(isinstance(x, ast.Call) and U(
+                            x.func) == 'len' and len(x.args) == 1
+                            for x in (a.left, a.right)):
+                    stripped = a.right.args[0]
+                    mc = method_call(stripped)
+                    if mc and mc[1] in ('lstrip', 'rstrip') and len(
+                            stripped.args) == 1 and is_const(
+                                stripped.args[0], k.value) and U(
+                                    mc[0]) == U(a.left.args[0]):
+                        out.setdefault(k.value, set()).add(mc[1])
+    return out
+
+
 def check_tokenizer(ctx, table, tf, en, paths):
     g = tf.func
     mod = g.module
